@@ -142,3 +142,48 @@ v_paths(void)
 		r |= 8;
 	return (r);
 }
+
+/*
+ * "Broken hardware" variants (ld --wrap=<primitive>): the accelerated primitive
+ * computes, then one bit of its result is flipped.  The library's self-test
+ * must reject the unit; whatever still calls it afterwards gets wrong data.
+ */
+#ifdef C03_FAULTY_crypto_aes_encrypt_block_aesni
+void __real_crypto_aes_encrypt_block_aesni(const uint8_t[16], uint8_t[16], const void *);
+void
+__wrap_crypto_aes_encrypt_block_aesni(const uint8_t in[16], uint8_t out[16], const void * key)
+{
+
+	__real_crypto_aes_encrypt_block_aesni(in, out, key);
+	out[5] ^= 0x10;
+}
+#endif
+#ifdef C03_FAULTY_CRC32C_Update_SSE42
+uint32_t __real_CRC32C_Update_SSE42(uint32_t, const uint8_t *, size_t);
+uint32_t
+__wrap_CRC32C_Update_SSE42(uint32_t state, const uint8_t * buf, size_t len)
+{
+
+	return (__real_CRC32C_Update_SSE42(state, buf, len) ^ 0x00040000);
+}
+#endif
+#ifdef C03_FAULTY_SHA256_Transform_shani
+void __real_SHA256_Transform_shani(uint32_t[8], const uint8_t[64]);
+void
+__wrap_SHA256_Transform_shani(uint32_t state[8], const uint8_t block[64])
+{
+
+	__real_SHA256_Transform_shani(state, block);
+	state[3] ^= 0x00000100;
+}
+#endif
+#ifdef C03_FAULTY_SHA256_Transform_sse2
+void __real_SHA256_Transform_sse2(uint32_t[8], const uint8_t[64], uint32_t[64], uint32_t[8]);
+void
+__wrap_SHA256_Transform_sse2(uint32_t state[8], const uint8_t block[64], uint32_t W[64], uint32_t S[8])
+{
+
+	__real_SHA256_Transform_sse2(state, block, W, S);
+	state[6] ^= 0x00400000;
+}
+#endif
